@@ -31,6 +31,8 @@ def evaluate(case: Dict[str, Any]) -> Dict[str, Any]:
     shared: Dict[str, Any] = {}
     for li, leg in enumerate(legs):
         kw, desc, p = shell.build(case)
+        leg = dict(leg)
+        x0_kind = leg.pop("x0_kind", None)
         kw.update(leg)
         # the same callable criteria objects are handed to every leg of a chain (what a user restarting in one process does)
         for name in ("ftarget", "gtol"):
@@ -39,8 +41,19 @@ def evaluate(case: Dict[str, Any]) -> Dict[str, Any]:
         if prev is not None:
             kw["x0"] = np.array(prev.x, copy=True)
             kw["checkpoint"] = prev
+            if x0_kind == "ulp":
+                # a start that equals the checkpoint's point only up to rounding: the package may refuse it (an exception ends the
+                # chain), but if it accepts the call the result has to be coherent like any other
+                j = case["seed"] % kw["x0"].size
+                kw["x0"][j] = np.nextafter(kw["x0"][j], np.inf if case["seed"] % 2 else -np.inf)
+                kw["x0"] = np.clip(kw["x0"], p.lb, p.ub)
+            elif x0_kind == "float32":
+                kw["x0"] = np.clip(kw["x0"].astype(np.float32).astype(float), p.lb, p.ub)
             shell.CK_SCALED[id(prev)] = prev_scaled
         run = Run(kw).execute()
+        if x0_kind is not None and run.exc is not None:
+            out["tags"].append("perturbed-restart-refused")
+            break
         if run.nonfinite():
             # overflow / nan in the user's functions: outside the quantifier of every property
             out["tags"].append("nonfinite-objective-domain")
